@@ -110,7 +110,9 @@ def parseDep : Dep → PMap → Option PMap
       let m1 := nested.foldl (fun acc kv => set acc kv.1 kv.2) m
       match depEntry name version commit with
       | none => none
-      | some (k, d) => some (set m1 k d)
+      | some (k, d) =>
+        -- fix 4dbc0083: an empty key, or an alias without a target ("npm:"), does not name a package
+        if d.name.isEmpty then some m1 else some (set m1 k d)
 end
 
 /-- `strings.Split(s, "/")` -/
@@ -178,7 +180,8 @@ structure Doc where
 def addPkgs (details : List (Str × NV)) : List (Str × Str) → Option (List (Str × NV))
   | [] => some details
   | (name, v) :: rest =>
-    if v.isEmpty then addPkgs details rest
+    -- fix ed6d851c: an entry under an empty key does not name a package
+    if name.isEmpty || v.isEmpty then addPkgs details rest
     else if !hasPrefix "==".toList v || v.length < 3 then addPkgs details rest
     else match goSlice v 2 v.length with
       | none => none
@@ -203,7 +206,9 @@ abbrev Doc := List (Str × List (Str × Str × Str))
 def isProject (e : Str × Str × Str) : Bool := e.2.2 = "Project".toList
 /-- the `seen` map: the first occurrence of a (name, version) pair is kept -/
 def addOnce (acc : List NV) (p : NV) : List NV := if acc.contains p then acc else acc ++ [p]
-def entries (d : Doc) : List NV := d.flatMap fun fw => (fw.2.filter fun e => !isProject e).map fun p => ⟨p.1, p.2.1⟩
+def entries (d : Doc) : List NV :=
+  -- fix 94fb6b98: an entry under an empty key does not name a package
+  d.flatMap fun fw => (fw.2.filter fun e => !isProject e && !e.1.isEmpty).map fun p => ⟨p.1, p.2.1⟩
 def extract (d : Doc) : List NV := (entries d).foldl addOnce []
 end PackagesLock
 
